@@ -7,6 +7,8 @@ mod c13;
 mod c14;
 mod c15;
 mod c18;
+mod c19;
+mod real;
 mod harness;
 mod probes;
 mod rng;
@@ -20,7 +22,7 @@ use sim::{SimConfig, Strategy};
 use world::{ShellSpec, World};
 
 fn props() -> Vec<Box<dyn Prop>> {
-    vec![Box::new(c08::C08), Box::new(c09::C09), Box::new(c11::C11), Box::new(c12::C12), Box::new(c13::C13), Box::new(c14::C14), Box::new(c15::C15), Box::new(c18::C18)]
+    vec![Box::new(c08::C08), Box::new(c09::C09), Box::new(c11::C11), Box::new(c12::C12), Box::new(c13::C13), Box::new(c14::C14), Box::new(c15::C15), Box::new(c18::C18), Box::new(c19::C19)]
 }
 
 fn find_prop(id: &str) -> Option<Box<dyn Prop>> {
@@ -130,6 +132,9 @@ fn verif_dir() -> String {
 fn main() {
     let args: Vec<String> = std::env::args().collect();
     match args.get(1).map(String::as_str) {
+        Some("real-shell") => {
+            real::real_shell_main(args[2..].to_vec());
+        }
         Some("demo") => {
             let script = args.get(2).expect("script");
             let seeds = args.get(3).and_then(|s| s.parse().ok()).unwrap_or(100);
